@@ -12,6 +12,7 @@ import YalafiVerif.Properties.C10
 import YalafiVerif.Proofs.Inv.Main
 import YalafiVerif.Generated.Tables
 import YalafiVerif.Model.Scanner
+import YalafiVerif.Properties.PlainDisplayStmt
 namespace Yalafi
 
 theorem C11_rot_length (l : List Str) : (rotL l).length = l.length := C10_rot_length l
